@@ -13,6 +13,7 @@ Parts (all full products, nothing sampled):
            the full decode of the undamaged message; a stream scanned in that mode cuts each message
            by its declared total length.
 """
+from mc import REPO
 import contextlib
 import glob
 import io
@@ -25,7 +26,7 @@ from mc.gen import scenario as S
 from mc.ref import codec, message
 
 PID = 'C17'
-DEFS = '/repo/pybufrkit/definitions'
+DEFS = os.path.join(REPO, 'pybufrkit/definitions')
 
 
 def parameter_names():
